@@ -43,6 +43,9 @@ CORPUS = {
                        "initialization_problem.override(title='Use Before Assignment')\nfrom pedal.tifa import tifa_analysis\nverify()\ntifa_analysis()\nrun()\n",
                        "print(never_assigned)\n"),
     'tifa_default_title': ("from pedal import *\nfrom pedal.tifa import tifa_analysis\nverify()\ntifa_analysis()\nrun()\n", "print(never_assigned)\n"),
+    'helper_with_state': ("from pedal import *\nverify()\nrun()\nassert_equal(get_output(), ['2'])\nset_success()\n",
+                          "import helper\nhelper.stock('apple')\nprint(helper.stock('pear'))\n",
+                          {'helper.py': "items = []\ndef stock(name):\n    items.append(name)\n    return len(items)\n"}),
     'compliment_partial': ("from pedal import *\nverify()\nrun()\ncompliment('nice', score='+25%')\ngive_partial('10%')\n", "x = 4\n"),
 }
 
@@ -62,7 +65,9 @@ def _restore_interpreter():
 
 def grade(name):
     """grade one corpus entry in THIS process; returns the observable result"""
-    script, code = CORPUS[name] if name in CORPUS else POLLUTERS[name]
+    entry = CORPUS[name] if name in CORPUS else POLLUTERS[name]
+    script, code = entry[0], entry[1]
+    extra_files = entry[2] if len(entry) > 2 else {}
     from pedal.core.environment import Environment
     from pedal.core.report import MAIN_REPORT
     from pedal.resolvers.simple import resolve
@@ -70,7 +75,7 @@ def grade(name):
     real_stdout = sys.stdout
     sys.stdout = io.StringIO()
     try:
-        Environment(files={'answer.py': code}, main_file='answer.py', main_code=code)
+        Environment(files=dict({'answer.py': code}, **extra_files), main_file='answer.py', main_code=code)
         try:
             exec(compile(script, 'instructor.py', 'exec'), {'__name__': '__main__'})
         except BaseException as e:
